@@ -660,6 +660,10 @@ def plan(tier, seed):
         specs.append(dict(name="link-mutate-%s" % dev, kind="link-mutate", dev=dev, tier=tier, part="octets"))
         specs.append(dict(name="link-functions-%s" % dev, kind="link-mutate", dev=dev, tier=tier, part="functions"))
         specs.append(dict(name="link-histories-%s" % dev, kind="link-hist", dev=dev, n=1200 if tier == "quick" else 12000))
+    # once more with the library's debug tracing switched on
+    specs.append(dict(name="tracing-histories", kind="hist", n=250 if tier == "quick" else 2500, tracing=True))
+    specs.append(dict(name="tracing-bodies", kind="bodies", n=600 if tier == "quick" else 6000, tracing=True))
+    specs.append(dict(name="tracing-link-histories", kind="link-hist", dev="bbmd", n=200 if tier == "quick" else 2000, tracing=True))
     return specs
 
 
